@@ -255,13 +255,15 @@ impl InfixOpManager {
         Ok(self.get(op)?.3)
     }
 
-    pub fn get_precidence(&self, op: &str) -> (i32, i32) {
+    pub fn get_precidence(&self, op: &str) -> (i64, i64) {
         let ans = self.get(op);
         if ans.is_err() {
             return (-1, -1);
         }
         let config = ans.unwrap();
-        let l_bp = config.0;
+        // binding powers are spread out so that the right binding power of one
+        // precedence never collides with the left binding power of the adjacent one
+        let l_bp = 2 * config.0 as i64;
         let mut r_bp = 0;
         if config.2 == InfixOpAssociativity::LEFT {
             r_bp = l_bp + 1;
